@@ -38,7 +38,26 @@ def setup():
     decopt.exprs_to_quantum = rec
 
 
+CORPUS12 = [
+    # several simplifiable sections, the earlier one with a barrier inside / two barriers after it
+    {"nq": 2, "gates": [["x", [0], None], ["barrier", [], None], ["cx", [0, 1], None], ["x", [0], None], ["cx", [0, 1], None], ["h", [0], None], ["x", [0], None], ["x", [0], None], ["x", [1], None]]},
+    {"nq": 2, "gates": [["x", [1], None], ["x", [0], None], ["x", [1], None], ["barrier", [], None], ["barrier", [], None], ["h", [0], None], ["x", [0], None]]},
+    {"nq": 3, "gates": [["x", [2], None], ["barrier", [], None], ["x", [2], None], ["h", [1], None], ["ccx", [0, 1, 2], None], ["h", [0], None], ["x", [1], None], ["cx", [1, 2], None], ["x", [1], None], ["cx", [1, 2], None]]},
+    # the same MCX twice with a control changed in between
+    {"nq": 4, "gates": [["mcx", [0, 1, 2, 3], None], ["x", [0], None], ["mcx", [0, 1, 2, 3], None]]},
+    {"nq": 4, "gates": [["mcx", [0, 1, 2, 3], None], ["x", [0], None], ["mcx", [0, 1, 2, 3], None], ["x", [0], None]]},
+    {"nq": 5, "gates": [["h", [4], None], ["mcx", [0, 1, 2], None], ["cx", [3, 1], None], ["mcx", [0, 1, 2], None], ["cx", [3, 1], None], ["h", [4], None]]},
+    # open-control Toffoli sections and negated xors
+    {"nq": 3, "gates": [["x", [2], None], ["ccx", [0, 1, 2], None], ["x", [0], None], ["ccx", [0, 1, 2], None], ["x", [0], None]]},
+    {"nq": 2, "gates": [["cx", [0, 1], None], ["x", [1], None], ["cx", [0, 1], None], ["x", [1], None]]},
+    # a swap written with three CX next to an independent NOT (relabelling must not be accepted)
+    {"nq": 3, "gates": [["cx", [0, 1], None], ["cx", [1, 0], None], ["cx", [0, 1], None], ["x", [2], None]]},
+]
+
+
 def cases(tier, seed):
+    for c in CORPUS12:
+        yield {"kind": "circ", "circ": c, "origin": "corpus"}
     rng = random.Random(12000 + seed)
     for c in GC.structured(random.Random(5)):
         yield {"kind": "circ", "circ": c, "origin": "structured"}
